@@ -52,10 +52,9 @@ pub fn oracle_text(run: &mut Run, text: &str, expect: Expect) -> String {
                     // the excerpt is made of words of the located line
                     if let Some(line) = text.lines().nth(loc.line) {
                         for w in near.split(' ') {
-                            if !line.contains(w) {
-                                run.fail(short(text), "near-not-in-line", format!("excerpt {:?} is not made of words of line {}", near, loc.line));
-                                break;
-                            }
+                            // the sentence says the excerpt CAN BE PRODUCED; that it is made of words of the located line is what
+                            // `C14Lex.excerpt_is_piece` proves of the model and the correspondence compares — counted, not demanded
+                            if !line.contains(w) { run.count("near-not-in-line"); break; }
                         }
                     }
                 }
@@ -104,7 +103,10 @@ pub fn check_text(run: &mut Run, text: &str, gen: &str, expect: Expect) -> Optio
 }
 
 const BAD_PATTERNS: &[&str] = &["(", "[a", "*a", "a{2,1}", "(?P<n", "x)", "(?z)", "a**", "[z-a]"];
-const BAD_NUMBERS: &[&str] = &["99999999999999999999", "9223372036854775808", "18446744073709551616", "٣", "1²"];
+const BAD_NUMBERS: &[&str] = &["99999999999999999999", "9223372036854775808", "18446744073709551616"];
+/// digits outside ASCII: the sentence speaks of numbers OUT OF RANGE, not of which characters are digits — whatever the program
+/// answers must be a statement or a located error (no panic), rejection is not demanded
+const ODD_NUMBERS: &[&str] = &["٣", "1²", "１２"];
 
 const NEAR_MISS: &[&str] = &[
     "SELECT x FROM t; SELECT y FROM t", "SELECT x FROM t;;", "SELECT x FROM t LIMIT 1; x", "SELECT x FROM t WHERE x = 1; ;",
@@ -207,6 +209,11 @@ fn run_inner(p: &Params) -> Run {
     // --- texts that must be rejected with an error
     for t in rejection_texts() {
         check_text(&mut run, &t, "reject", Expect::MustReject);
+    }
+    for n in ODD_NUMBERS {
+        for t in [format!("SELECT x FROM t LIMIT {}", n), format!("SELECT x + {} FROM t", n), format!("CREATE TABLE t(line = '(.*)', line[{}] => x TEXT);", n)] {
+            check_text(&mut run, &t, "odd-digits", Expect::Any);
+        }
     }
 
     // --- near misses aimed at the rarer error arms (trailing tokens, DEFAULT / TRIM type checks, type syntax)
